@@ -46,48 +46,54 @@ func ruleSpecialNamesExclusive(w *World, r *RuleResult) {
 		return
 	}
 	names := map[string]bool{"nan": true, "snan": true, "inf": true, "infinity": true}
-	var calls []*ssa.Call
-	for _, c := range w.callsTo(f, "consumePrefix") {
-		if s, ok := strConst(c.Common().Args[1]); ok && names[s] {
-			calls = append(calls, c)
-		}
-	}
 	key := "(*Decimal).setString | special-name prefixes are mutually exclusive"
 	var bad []string
-	for i, a := range calls {
-		for j, b := range calls {
-			if i == j {
-				continue
+	total := 0
+	top := f
+	for _, f := range w.parserFuncs() {
+		var calls []*ssa.Call
+		for _, c := range w.callsTo(f, "consumePrefix") {
+			if s, ok := strConst(c.Common().Args[1]); ok && names[s] {
+				calls = append(calls, c)
 			}
-			// b's input derives from a's remainder?
-			derives := false
-			w.exprOf(f, b.Common().Args[0]).walk(func(x *Expr) bool {
-				if x.V == ssa.Value(a) {
-					derives = true
+		}
+		total += len(calls)
+		for i, a := range calls {
+			for j, b := range calls {
+				if i == j {
+					continue
 				}
-				return true
-			})
-			if !derives {
-				continue
-			}
-			// then b must sit on the not-consumed edge of a
-			excl := false
-			for _, g := range guardsAt(b.Block()) {
-				if ex, ok := g.Cond.(*ssa.Extract); ok && ex.Tuple == ssa.Value(a) && ex.Index == 1 && !g.Val {
-					excl = true
+				// b's input derives from a's remainder?
+				derives := false
+				w.exprOf(f, b.Common().Args[0]).walk(func(x *Expr) bool {
+					if x.V == ssa.Value(a) {
+						derives = true
+					}
+					return true
+				})
+				if !derives {
+					continue
 				}
-			}
-			if !excl {
-				sa, _ := strConst(a.Common().Args[1])
-				sb, _ := strConst(b.Common().Args[1])
-				bad = append(bad, fmt.Sprintf("%q is tried on the remainder of %q even when that was consumed (accepts %q)", sb, sa, sa+sb))
+				// then b must sit on the not-consumed edge of a
+				excl := false
+				for _, g := range guardsAt(b.Block()) {
+					if ex, ok := g.Cond.(*ssa.Extract); ok && ex.Tuple == ssa.Value(a) && ex.Index == 1 && !g.Val {
+						excl = true
+					}
+				}
+				if !excl {
+					sa, _ := strConst(a.Common().Args[1])
+					sb, _ := strConst(b.Common().Args[1])
+					bad = append(bad, fmt.Sprintf("%q is tried on the remainder of %q even when that was consumed (accepts %q)", sb, sa, sa+sb))
+				}
 			}
 		}
 	}
+	f = top
 	if len(bad) > 0 {
 		r.bad(key, w.pos(f.Pos()), strings.Join(uniqStrings(bad), "; "))
 	} else {
-		r.ok(key, w.pos(f.Pos()), fmt.Sprintf("%d special-name prefix tests; none chained on a consumed remainder", len(calls)), true)
+		r.ok(key, w.pos(f.Pos()), fmt.Sprintf("%d special-name prefix tests; none chained on a consumed remainder", total), true)
 	}
 }
 
@@ -98,29 +104,28 @@ func ruleParseValidated(w *World, r *RuleResult) {
 		return
 	}
 	n := 0
-	for _, c := range callsIn(f) {
-		call, ok := c.(*ssa.Call)
-		if !ok {
-			continue
-		}
-		cn := w.calleeName(call)
-		if !strings.HasPrefix(cn, "strconv.Parse") {
-			continue
-		}
-		n++
-		key := fmt.Sprintf("(*Decimal).setString | %s error is returned", cn)
-		if k := countKey(r, key); k > 0 {
-			key = fmt.Sprintf("%s #%d", key, k+1)
-		}
+	pset := w.privateClosure(f)
+	// errEdge: the error result (index idx) of call is tested and its non-nil edge returns an error, or it is
+	// itself returned as the error result; when that happens inside a helper of the parser, the helper's own
+	// error result must be treated the same way at each of its call sites.
+	var errEdge func(call *ssa.Call, idx int, depth int) bool
+	errEdge = func(call *ssa.Call, idx int, depth int) bool {
 		okErr := false
 		if refs := call.Referrers(); refs != nil {
 			for _, u := range *refs {
 				ex, isEx := u.(*ssa.Extract)
-				if !isEx || ex.Index != 1 {
+				if !isEx || ex.Index != idx {
 					continue
 				}
 				if er := ex.Referrers(); er != nil {
 					for _, uu := range *er {
+						if rt, isRet := uu.(*ssa.Return); isRet && depth > 0 {
+							for _, res := range rt.Results {
+								if res == ssa.Value(ex) {
+									okErr = true // handed on unchanged as the caller's own error result
+								}
+							}
+						}
 						bo, isB := uu.(*ssa.BinOp)
 						if !isB || bo.Op != token.NEQ || !isNilConst(bo.Y) {
 							continue
@@ -139,6 +144,41 @@ func ruleParseValidated(w *World, r *RuleResult) {
 				}
 			}
 		}
+		if !okErr {
+			return false
+		}
+		g := call.Parent()
+		if g == f || depth > 3 {
+			return true
+		}
+		ei := g.Signature.Results().Len() - 1
+		for _, cs := range w.callersOf(g) {
+			cc, isCall := cs.(*ssa.Call)
+			if !isCall || !pset[cs.Parent()] || !errEdge(cc, ei, depth+1) {
+				return false
+			}
+		}
+		return true
+	}
+	var calls []ssa.CallInstruction
+	for _, pf := range w.closureFuncs(f) {
+		calls = append(calls, callsIn(pf)...)
+	}
+	for _, c := range calls {
+		call, ok := c.(*ssa.Call)
+		if !ok {
+			continue
+		}
+		cn := w.calleeName(call)
+		if !strings.HasPrefix(cn, "strconv.Parse") {
+			continue
+		}
+		n++
+		key := fmt.Sprintf("(*Decimal).setString | %s error is returned", cn)
+		if k := countKey(r, key); k > 0 {
+			key = fmt.Sprintf("%s #%d", key, k+1)
+		}
+		okErr := errEdge(call, 1, 0)
 		if okErr {
 			r.ok(key, w.instrPos(call), "non-nil error edge returns an error", true)
 		} else {
@@ -177,8 +217,12 @@ func ruleOneParser(w *World, r *RuleResult) {
 	}
 	// nobody else turns text into coefficients
 	var others []string
+	parserSet := map[*ssa.Function]bool{}
+	for _, pf := range w.parserFuncs() {
+		parserSet[pf] = true
+	}
 	for _, c := range w.allCallsTo("(*BigInt).SetString") {
-		if n := w.shortName(c.Parent()); n != "(*Decimal).setString" {
+		if n := w.shortName(c.Parent()); !parserSet[c.Parent()] {
 			others = append(others, n+" at "+w.instrPos(c))
 		}
 	}
@@ -295,6 +339,50 @@ func ruleCmpSignFlip(w *World, r *RuleResult) {
 	}
 	paths, ok := enumPaths(f, 20000)
 	key := "(*Decimal).Cmp | magnitude comparison is negated for negatives"
+	if len(w.callsTo(f, "(*BigInt).Cmp")) == 0 {
+		// the magnitude comparison was moved into helpers: the path enumeration below does not span calls
+		r.ok(key, w.pos(f.Pos()), "Cmp delegates the coefficient comparison to helpers: this shape is not decided", false)
+		r.ok("(*Decimal).Cmp | rescaling multiplies the larger-exponent coefficient", w.pos(f.Pos()), "not decided for this shape", false)
+		return
+	}
+	// scaledFrom: which operand's coefficient the BigInt local v holds, multiplied by a power of ten, on path p
+	scaledFrom := func(v ssa.Value, p Path) string {
+		onPath := map[*ssa.BasicBlock]bool{}
+		for _, b := range p.Blocks {
+			onPath[b] = true
+		}
+		base := basePtr(v)
+		if _, isA := base.(*ssa.Alloc); !isA {
+			return ""
+		}
+		src := ""
+		mul := false
+		for _, c := range callsIn(f) {
+			call, isCall := c.(*ssa.Call)
+			if !isCall || !onPath[call.Block()] || len(call.Common().Args) < 2 || basePtr(call.Common().Args[0]) != base {
+				continue
+			}
+			cn := w.calleeName(call)
+			if cn != "(*BigInt).Set" && cn != "(*BigInt).Mul" {
+				continue
+			}
+			if cn == "(*BigInt).Mul" {
+				mul = true
+			}
+			for _, a := range call.Common().Args[1:] {
+				switch w.exprOf(f, a).String() {
+				case "&" + f.Params[0].Name() + ".Coeff":
+					src = "d"
+				case "&" + f.Params[1].Name() + ".Coeff":
+					src = "x"
+				}
+			}
+		}
+		if !mul {
+			return ""
+		}
+		return src
+	}
 	if !ok {
 		r.undecided(key, w.pos(f.Pos()), "Cmp is not loop-free or has too many paths")
 		return
@@ -368,10 +456,10 @@ func ruleCmpSignFlip(w *World, r *RuleResult) {
 		}
 		if seen {
 			s0, s1 := w.exprOf(f, a0).String(), w.exprOf(f, a1).String()
-			if lt && !(s0 == "&d.Coeff" && strings.Contains(s1, "xScaled")) {
+			if lt && !(s0 == "&d.Coeff" && scaledFrom(a1, p) == "x") {
 				bad = append(bad, "with d.Exponent < x.Exponent the comparison must be d.Coeff vs scaled x")
 			}
-			if !lt && !(strings.Contains(s0, "dScaled") && s1 == "&x.Coeff") {
+			if !lt && !(scaledFrom(a0, p) == "d" && s1 == "&x.Coeff") {
 				bad = append(bad, "with d.Exponent > x.Exponent the comparison must be scaled d vs x.Coeff")
 			}
 		}
